@@ -50,7 +50,7 @@ impl IdealGas for CpIdealGas {
 const TOL_PURE: f64 = 1e-9; // pure_t / pure_p stop at |dp| < 1e-12 p resp. |dT| < 1e-12 T; densities follow by one Newton step
 const TOL_BD: f64 = 1e-7; // bubble/dew: ||(dmu, dp)|| < 1e-10 (Newton) in reduced units
 const TOL_FLASH: f64 = 1e-6; // tp_flash: ||ln K update|| < 1e-8; plus 1e-8 / (relative width of the envelope), see flash_tol
-const TOL_STATE: f64 = 1e-9; // density iteration / newton on T: 1e-8 K resp. relative 1e-10..1e-12
+const TOL_STATE: f64 = 1e-8; // density iteration (relative 1e-10..1e-12) and Newton on T (|dT| < 1e-8 K) incl. the inner density iteration; worst observed 5.8e-10
 
 fn err_kind(e: &EosError) -> String {
     let s = format!("{e:?}");
